@@ -39,10 +39,10 @@ import (
 
 func init() {
 	h.Register(&h.Prop{
-		ID:   "C08",
-		Rule: "enc: real EncryptedDeal, presented to every (recipient, opener, believed dealer, believed member list) combination for n<=5 and mutated at byte level (xor masks 01/80/FF at byte positions of all four fields - sampled in quick, every position in thorough -, truncation/extension by 1 and 16, field swaps with a second deal of the same dealer to another recipient / of another dealer / a second deal to the same recipient); pl: plaintext deviations sealed through the hook (bad share, T in {0,1,n+1,2^32-1} with and without matching session id, wrong index, nil share, nil value, empty plaintext, other-length commitments, foreign session ids, same deal twice); non-trivial = anything but the unmodified deal opened by its addressee; distinct = distinct case line",
-		Gen:  gen,
-		Exec: exec,
+		ID:         "C08",
+		Rule:       "enc: real EncryptedDeal, presented to every (recipient, opener, believed dealer, believed member list) combination for n<=5 and mutated at byte level (xor masks 01/80/FF at byte positions of all four fields - sampled in quick, every position in thorough -, truncation/extension by 1 and 16, field swaps with a second deal of the same dealer to another recipient / of another dealer / a second deal to the same recipient); pl: plaintext deviations sealed through the hook (bad share, T in {0,1,n+1,2^32-1} with and without matching session id, wrong index, nil share, nil value, empty plaintext, other-length commitments, foreign session ids, same deal twice); non-trivial = anything but the unmodified deal opened by its addressee; distinct = distinct case line",
+		Gen:        gen,
+		Exec:       exec,
 		Exhaustive: func(tier string) bool { return tier == "thorough" },
 	})
 }
